@@ -54,7 +54,7 @@ func (c CreateBidTx) Validate(ctx *action.Context, signedTx action.SignedTx) (bo
 	if !ok {
 		panic("no default currency available in the network")
 	}
-	if currency.Name != createBid.Amount.Currency {
+	if currency.Name != createBid.Amount.Currency || !createBid.Amount.IsValid(ctx.Currencies) {
 		return false, errors.Wrap(action.ErrInvalidAmount, createBid.Amount.String())
 	}
 
